@@ -31,6 +31,7 @@ class Exec(ExprMixin, CallMixin):
         self.fuel_stack = []
         self.fuel_left = {}
         self.dry_running = set()
+        self.force_fuel = 0
         self.unfolding = set()
         self.in_old = False
         self.loop_ord = {}
@@ -125,6 +126,8 @@ class Exec(ExprMixin, CallMixin):
         st = State(eng)
         st.seth(('alloc',), z3.Int('alloc0'))
         st.assume(st.h(('alloc',)) >= 0)
+        r_ = z3.Int(fresh_name('r'))
+        st.assume(z3.ForAll([r_], z3.Select(st.h(eng.k_len()), r_) >= 0))
         ps = self.param_specs(c)
         if c.kind != 'lemma':
             real = [a.arg for a in self.fn.args.posonlyargs + self.fn.args.args + self.fn.args.kwonlyargs]
@@ -588,6 +591,16 @@ class Exec(ExprMixin, CallMixin):
             out.absorb(o1)
             out.normal = o1.normal
             return out
+        if self.infeasible(st, c):
+            o2 = self.block(s.orelse, st)
+            out.absorb(o2)
+            out.normal = o2.normal
+            return out
+        if self.infeasible(st, z3.Not(c)):
+            o1 = self.block(s.body, st)
+            out.absorb(o1)
+            out.normal = o1.normal
+            return out
         a, b = st.copy(), st
         a.assume(c, True)
         b.assume(z3.Not(c), True)
@@ -597,6 +610,16 @@ class Exec(ExprMixin, CallMixin):
         out.absorb(o2)
         out.normal = self.merge([o1.normal, o2.normal])
         return out
+
+    def infeasible(self, st, cond):
+        """Cheap semantic pruning: the quantifier-free part of the path condition refutes cond."""
+        sv = z3.Solver()
+        sv.set('timeout', 200)
+        for h in st.pc:
+            if not z3.is_quantifier(h):
+                sv.add(h)
+        sv.add(cond)
+        return sv.check() == z3.unsat
 
     def st_With(self, s, st):
         raise Unsupported('with statement at line %s' % s.lineno)
@@ -689,6 +712,8 @@ class Exec(ExprMixin, CallMixin):
                                     keys.add(('has', m.field))
                         if callee.allocates:
                             keys.add(('alloc',))
+                        for gname in getattr(callee, 'ghost_sets', {}):
+                            keys.add(('g', gname, self.eng.ptype(self.eng.prop.ghosts[gname])))
                     if isinstance(f, ast.Name) and f.id in self.eng.prop.classes:
                         keys.add(('alloc',))
                     if isinstance(f, ast.Name) and f.id in ('list', 'dict'):
@@ -756,6 +781,9 @@ class Exec(ExprMixin, CallMixin):
             if full is None:
                 continue
             st.seth(full, z3.Const(fresh_name('H_' + '_'.join(str(x) for x in self.eng.hkey(full)[:2])), self.eng.heap_sort(full)))
+            if full[0] == 'len':
+                r_ = z3.Int(fresh_name('r'))
+                st.assume(z3.ForAll([r_], z3.Select(st.h(full), r_) >= 0))
         # type invariants of havocked locals
         for nm in names:
             v = st.locals.get(nm)
@@ -804,10 +832,10 @@ class Exec(ExprMixin, CallMixin):
                 continue
             r = z3.Int(fresh_name('r'))
             allowed = self.frame_cond(key, mods, r, st.old)
-            st.assume(z3.ForAll([r], z3.Implies(z3.And(r > 0, r <= st.old.h(('alloc',)), z3.Not(allowed)),
+            st.assume(z3.ForAll([r], z3.Implies(z3.And(r > 0, r <= a_pre, z3.Not(allowed)),
                                                 z3.Select(val, r) == z3.Select(before, r))))
 
-    def loop_frame_check(self, st, head, lc, ordn, where):
+    def loop_frame_check(self, st, head, lc, ordn, where, a_pre):
         mods = lc.modifies if lc.modifies is not None else self.c.modifies
         for key, val in st.heap.items():
             if key[0] in ('alloc', 'g'):
@@ -817,7 +845,7 @@ class Exec(ExprMixin, CallMixin):
                 continue
             r = z3.Int(fresh_name('r'))
             allowed = self.frame_cond(key, mods, r, st.old)
-            goal = z3.ForAll([r], z3.Implies(z3.And(r > 0, r <= st.old.h(('alloc',)), z3.Not(allowed)),
+            goal = z3.ForAll([r], z3.Implies(z3.And(r > 0, r <= a_pre, z3.Not(allowed)),
                                              z3.Select(val, r) == z3.Select(before, r)))
             o = self.eng.obl('loop-frame', 'loop%d:%s' % (ordn, '_'.join(str(x) for x in self.eng.hkey(key)[:2])),
                              'loop writes only declared objects')
@@ -869,7 +897,7 @@ class Exec(ExprMixin, CallMixin):
             self.take_exits(out)
             self.use_lemmas(lc.at_end, s, env0(s))
             self.check_inv(lc, s, head_snapshot, 'inv-keep', 'loop%d' % ordn, env0(s), how)
-            self.loop_frame_check(s, head_snapshot, lc, ordn, how)
+            self.loop_frame_check(s, head_snapshot, lc, ordn, how, pre.h(('alloc',)))
             if meas0 is not None:
                 m1 = self.spec_value(lc.decreases, s, env0(s)).z
                 o = self.eng.obl('decreases', 'loop%d' % ordn, lc.decreases)
@@ -984,6 +1012,8 @@ class Exec(ExprMixin, CallMixin):
             e = {iname: cur.locals[idx]}
             if live is None:
                 e[sname] = cur.ghost['$s%d' % ordn]
+            else:
+                e[sname] = live
             return e
 
         def cond(cur):
@@ -1161,6 +1191,9 @@ class Exec(ExprMixin, CallMixin):
             for key in self.mod_keys(m, st):
                 before = st.h(key)
                 nv = z3.Const(fresh_name('H_' + '_'.join(str(x) for x in eng.hkey(key)[:2])), eng.heap_sort(key))
+                if key[0] == 'len':
+                    r_ = z3.Int(fresh_name('r'))
+                    st.assume(z3.ForAll([r_], z3.Select(nv, r_) >= 0))
                 r = z3.Int(fresh_name('r'))
                 tmp = pre.copy()
                 tmp.old = pre
@@ -1168,6 +1201,10 @@ class Exec(ExprMixin, CallMixin):
                 st.assume(z3.ForAll([r], z3.Implies(z3.And(r > 0, r <= a_pre, z3.Not(allowed)),
                                                     z3.Select(nv, r) == z3.Select(before, r))))
                 st.seth(key, nv)
+        for gname, gexpr in c.ghost_sets.items():
+            gt = eng.ptype(eng.prop.ghosts[gname])
+            gv = self.spec_value(gexpr, pre.copy(), env, old=pre)
+            st.seth(('g', gname, gt), coerce(gv, gt).z)
         rt = eng.ptype(c.returns)
         res = none_sv() if isinstance(rt, T._None) else SV(rt, rt.fresh(fresh_name('ret_' + c.name.replace('.', '_'))))
         for a in self.type_inv(res, st):
@@ -1210,6 +1247,7 @@ class Exec(ExprMixin, CallMixin):
 
 class Contract_union:
     def __init__(self, cs):
+        self.ghost_sets = {k: v for c in cs for k, v in c.ghost_sets.items()}
         self.modifies = [m for c in cs for m in c.modifies]
         self.allocates = any(c.allocates for c in cs)
 
